@@ -206,6 +206,25 @@ def mutate_tree(rng, tree, names=NAMES, mtimes=MTIMES, maxlen=12, nmut=None):
     return t
 
 
+_uniq = [0]
+
+
+def distinct_from_history(tree, earlier):
+    """The statements exclude content changes that keep path, kind, size and mtime (the unchanged
+    heuristic cannot see them). A random mutation can produce one by accident (a rename onto a
+    path that held a same-size file with the same mtime in an earlier version): give such a file
+    a fresh, unique mtime."""
+    for n in tree:
+        if n["k"] != "File":
+            continue
+        for t in earlier:
+            for m in t:
+                if m["p"] == n["p"] and m["k"] == "File" and m["mt"] == n["mt"] and len(m["c"]) == len(n["c"]) and m["c"] != n["c"]:
+                    _uniq[0] += 1
+                    n["mt"] = [1700000000 + _uniq[0], 0]
+    return tree
+
+
 def rand_opts(rng):
     """Backup settings at toy scale: entries per hunk, max block size, small-file cap."""
     return {"H": rng.choice([1, 2, 3, 5, 1000]), "M": rng.choice([1, 2, 3, 4, 7, 1000]),
